@@ -28,7 +28,7 @@ func c09Msg(id uint64, size int, squeeze bool) *gen.Msg {
 }
 
 func c09(run *ev.Run) int {
-	run.SetRule("limit cases = N in {2,10,100,1000,65536,131072} (thorough: 13 values from 1 to 1 MiB; plus limits at the top of the integer range, under which everything must be delivered) x encoded size in {N-1,N,N+1,10N} (exact, proto codec; JSON sampled) x {identity, gzip} x position {first,middle,last} of a 3-message stream (or the single unary message) x 3 protocols x 4 kinds x {handler-side limit, client-side limit}; hostile cases = lying prefixes (2^32-1, 2^31, N+1 declared with 3 bytes present; <=N declared with fewer present), 32 MiB envelopes with reserved flags, 64/256 MiB gzip bombs (as data messages, as compressed Connect end-of-stream messages and gRPC-Web trailer frames, as unary Connect error bodies), valid small bodies under a Content-Length unrelated to them (2^62 ... unknown), each measured alone on one goroutine with runtime.MemStats.TotalAlloc; oracle: delivered <=> encoded size <= N (wire and decompressed; raw<=N<wire is either), failing call has invalid_argument/resource_exhausted, earlier messages delivered and none after, allocation for one message <= 16N + slack; distinct by (N, size class, compression class, position, protocol, kind, side)")
+	run.SetRule("limit cases = N in {2,10,100,1000,65536,131072} (thorough: 13 values from 1 to 1 MiB; plus limits at the top of the integer range, under which everything must be delivered) x encoded size in {N-1,N,N+1,10N} (exact, proto codec; JSON sampled) x {identity, gzip} x position {first,middle,last} of a 3-message stream (or the single unary message) x 3 protocols x 4 kinds x {handler-side limit, client-side limit}; hostile cases = lying prefixes (2^32-1, 2^31, N+1 declared with 3 bytes present; <=N declared with fewer present), 32 MiB envelopes with reserved flags, 64/256 MiB gzip bombs (as data messages, as compressed Connect end-of-stream messages and gRPC-Web trailer frames, as error bodies of non-200 responses to unary and streaming calls), valid small bodies under a Content-Length unrelated to them (2^62 ... unknown), each measured alone on one goroutine with runtime.MemStats.TotalAlloc; oracle: delivered <=> encoded size <= N (wire and decompressed; raw<=N<wire is either), failing call has invalid_argument/resource_exhausted, earlier messages delivered and none after, allocation for one message <= 16N + slack; distinct by (N, size class, compression class, position, protocol, kind, side)")
 	Ns := []int{2, 10, 100, 1000, 65536, 131072}
 	if !run.Quick() {
 		Ns = []int{1, 2, 3, 10, 50, 100, 500, 1000, 4096, 65535, 65536, 131072, 1 << 20}
@@ -444,31 +444,44 @@ func c09Hostile(run *ev.Run) {
 	}{
 		{"error-body-bomb-64MiB", http.Header{"Content-Type": {"application/json"}, "Content-Encoding": {"gzip"}}, zeros64},
 		{"error-body-present-32MiB", http.Header{"Content-Type": {"application/json"}}, bytes.Repeat([]byte(" "), 32<<20)},
+		{"error-body-valid-json-16MiB-message", http.Header{"Content-Type": {"application/json"}}, []byte(`{"code":"resource_exhausted","message":"` + strings.Repeat("a", 16<<20) + `"}`)},
+		{"error-body-valid-json-gzip-16MiB-message", http.Header{"Content-Type": {"application/json"}, "Content-Encoding": {"gzip"}}, refcodec.GzipCompress([]byte(`{"code":"resource_exhausted","message":"` + strings.Repeat("a", 16<<20) + `"}`))},
 	} {
 		for _, status := range []int{400, 404, 500, 503} {
-			key := fmt.Sprintf("c09/hostile/client/connect/unary/%s/status=%d", ec.name, status)
-			if !run.Want(key) {
-				continue
-			}
-			ec := ec
-			cn := &wire.Canned{Background: true, Respond: func(req *http.Request, _ []byte) (*http.Response, error) {
-				return wire.NewResponse(req, status, ec.hdr, &wire.ScriptedBody{Data: ec.body}, nil), nil
-			}}
-			cs := svc.NewClientSet(cn, "http://verif.local", connect.WithReadMaxBytes(N))
-			var cl *svc.CLog
-			delta := measure(func() { cl = cs.Do(context.Background(), svc.Unary, "x", nil, []*gen.Msg{{Id: 1}}) })
-			run.Count("alloc.measured", 1)
-			if delta > maxAlloc {
-				maxAlloc = delta
-			}
-			allocs[fmt.Sprintf("client/connect/unary/%s/%d", ec.name, status)] = delta
-			run.Eval(fmt.Sprintf("hostile|client|connect|unary|%s", ec.name))
-			detail := map[string]any{"case": ec.name, "status": status, "N": N, "allocated": delta, "bound": bound, "client_err": errStr(cl.Err)}
-			if delta > bound {
-				run.Violation(key+"/allocation", fmt.Sprintf("receiving one hostile error body allocated %d bytes with a read limit of %d (bound %d)", delta, N, bound), detail)
-			}
-			if cl.Err == nil {
-				run.Violation(key+"/accepted", "non-200 response reported as success", detail)
+			for _, pk := range []struct {
+				proto string
+				kind  svc.Kind
+			}{{"connect", svc.Unary}, {"connect", svc.ServerStream}, {"connect", svc.ClientStream}, {"grpc", svc.ServerStream}, {"grpcweb", svc.Unary}} {
+				if pk.kind != svc.Unary && status != 404 && status != 503 {
+					continue
+				}
+				key := fmt.Sprintf("c09/hostile/client/%s/%s/%s/status=%d", pk.proto, pk.kind, ec.name, status)
+				if !run.Want(key) {
+					continue
+				}
+				ec := ec
+				cn := &wire.Canned{Background: true, Respond: func(req *http.Request, _ []byte) (*http.Response, error) {
+					return wire.NewResponse(req, status, ec.hdr, &wire.ScriptedBody{Data: ec.body}, nil), nil
+				}}
+				cs := svc.NewClientSet(cn, "http://verif.local", append(svc.ProtoOpts(pk.proto, "proto"), connect.WithReadMaxBytes(N))...)
+				var cl *svc.CLog
+				delta := measure(func() { cl = cs.Do(context.Background(), pk.kind, "x", nil, []*gen.Msg{{Id: 1}}) })
+				run.Count("alloc.measured", 1)
+				if delta > maxAlloc {
+					maxAlloc = delta
+				}
+				allocs[fmt.Sprintf("client/%s/%s/%s/%d", pk.proto, pk.kind, ec.name, status)] = delta
+				run.Eval(fmt.Sprintf("hostile|client|%s|%s|%s", pk.proto, pk.kind, ec.name))
+				detail := map[string]any{"case": ec.name, "protocol": pk.proto, "kind": pk.kind.String(), "status": status, "N": N, "allocated": delta, "bound": bound, "client_err": errStr(cl.Err)}
+				if delta > bound {
+					run.Violation(key+"/allocation", fmt.Sprintf("receiving one hostile error body allocated %d bytes with a read limit of %d (bound %d)", delta, N, bound), detail)
+				}
+				if cl.Err == nil {
+					run.Violation(key+"/accepted", "non-200 response reported as success", detail)
+				}
+				if cl.Err != nil && len(cl.Err.Error()) > 4*N {
+					run.Violation(key+"/oversize-error-delivered", fmt.Sprintf("an error text of %d bytes was delivered through a read limit of %d", len(cl.Err.Error()), N), nil)
+				}
 			}
 		}
 	}
